@@ -12,7 +12,7 @@ import z3
 
 from . import ty as T
 from . import ops
-from .ty import INT, BOOL, CHAR, NONE, SLICE, TStr, TList, TTuple, TOpt, TRec, TRef, TSet, TDict, TEnum, Ty
+from .ty import SINK, INT, BOOL, CHAR, NONE, SLICE, TStr, TList, TTuple, TOpt, TRec, TRef, TSet, TDict, TEnum, Ty
 from .dsl import CONTRACTS, SPECS, LEMMAS, Spec, Lemma, Contract
 from .dsl import implies as _implies, iff as _iff
 from .engine import (SDict, V, K, PyObj, STuple, BoundMethod, Unsupported, Stale, State, Obligation, Normalizer,
@@ -576,7 +576,11 @@ class Executor:
         if isinstance(base, (STuple, SDict)):
             return BoundMethod(base, attr)
         t = base.ty
+        if t == SINK:
+            return BoundMethod(base, attr)
         if isinstance(t, TOpt):
+            if t.inner == SINK:
+                return BoundMethod(unwrap_opt(base), attr)
             self.emit(st, "nonnull", attr, z3.Not(is_none(base)), note="AttributeError on None otherwise")
             base = unwrap_opt(base)
             t = base.ty
@@ -840,7 +844,7 @@ class Executor:
             for c in gen.ifs:
                 guards.append(truthy(self.eval(st2, c)))
         if which is sum:
-            raise Unsupported("sum(...) -- use a spec function")
+            return self.sum_of(st, st2, g, qvars, guards)
         st2b = st2.fork()
         st2b.assume(z3.And(*guards))   # obligations emitted inside the body see the range guards
         nb = len(st2b.pc)
@@ -857,6 +861,23 @@ class Executor:
         if which is all:
             return V(BOOL, forall(qvars, z3.Implies(z3.And(guard, *extras) if extras else guard, body)))
         return V(BOOL, exists(qvars, z3.And(guard, *extras, body) if extras else z3.And(guard, body)))
+
+    def sum_of(self, st, st2, g, qvars, guards):
+        """sum(term(i) for i ...): a fresh integer with the facts that hold of every finite sum of non-negative
+        terms (>= 0, >= each term, zero iff every term is zero); the exact value for an empty or singleton range."""
+        st2b = st2.fork()
+        st2b.assume(z3.And(*guards))
+        nb = len(st2b.pc)
+        term = coerce(self.eval(st2b, g.elt), INT).z
+        extras = [z for z in st2.pc[len(st.pc):] + st2b.pc[nb:]]
+        pre = z3.And(*guards, *extras) if extras else z3.And(*guards)
+        r = fresh(INT, "sum")
+        nonneg = forall(qvars, z3.Implies(pre, term >= 0))
+        st.assume(z3.Implies(nonneg, z3.And(r.z >= 0,
+                                            (r.z == 0) == forall(qvars, z3.Implies(pre, term == 0)),
+                                            forall(qvars, z3.Implies(pre, r.z >= term)))))
+        st.assume(z3.Implies(z3.Not(exists(qvars, pre)), r.z == 0))
+        return r
 
     # ------------------------------------------------------------------ call dispatch
     def apply(self, st, f, args, kwargs, node, stmt_level):
@@ -1316,6 +1337,8 @@ class Executor:
             base_node = target.value
             base = self.eval(st, base_node)
             idx = self.eval(st, target.slice)
+            if isinstance(base, V) and base.ty == SINK:
+                return
             sd = ops.sdict_of(base)
             if sd is not None:
                 if not (isinstance(idx, K) and isinstance(idx.v, str)):
